@@ -38,9 +38,14 @@ class Harness:
         self.expect_inconclusive = expect_inconclusive
 
     def run(self, E):
+        # standing shadow for every harness: expressions.np answers isinf/isnan elementwise on object arrays (numpy's C loops
+        # refuse dtype=object); for ordinary float arrays it is numpy itself.
+        import mitxgraders.helpers.calc.expressions as X
+        from .stubs import shadow, NpObjProxy
         set_engine(E)
         try:
-            return self.fn(E, *self.params)
+            with shadow(X, np=NpObjProxy()):
+                return self.fn(E, *self.params)
         finally:
             set_engine(None)
 
@@ -142,6 +147,12 @@ def _explore(h, roots, max_paths, max_s, seed, validate_every):
             kind, err = 'exc', '%s: %s' % (type(e).__name__, str(e)[:200])
             tb = traceback.format_exc(limit=8)
         set_engine(E)
+        if kind != 'abort' and not E.model_ok:
+            # final feasibility check of the path condition (a branch taken on 'unknown' may have been infeasible)
+            try:
+                E._refresh_model()
+            except Abort:
+                kind = 'abort'
         try:
             # schedule alternatives beyond the prefix
             for i in range(len(prefix), len(E.trace)):
@@ -324,17 +335,28 @@ def run_harnesses(modname, tier, hs, deadline_s, seed, slice_s=6.0, slice_paths=
 
 
 def load_known():
-    p = os.path.join(VERIF, 'known_findings.json')
+    """known_findings.txt: 'known: property=C12 harness=<name> label=<label> :: what'; 'fixed:' lines suppress nothing"""
+    p = os.path.join(VERIF, 'known_findings.txt')
+    out = []
     if not os.path.exists(p):
-        return []
-    return json.load(open(p)).get('findings', [])
+        return out
+    for line in open(p):
+        line = line.strip()
+        if not line.startswith('known:'):
+            continue
+        head, _, what = line[len('known:'):].partition('::')
+        d = {'what': what.strip(), 'status': 'known'}
+        for tok in head.split():
+            k, _, v = tok.partition('=')
+            d[k] = v
+        d['id'] = '%s/%s/%s' % (d.get('property'), d.get('harness'), d.get('label'))
+        out.append(d)
+    return out
 
 
 def match_known(known, pid, cex):
     for k in known:
-        if k.get('status', 'known') != 'known':
-            continue      # "fixed" entries suppress nothing
-        if k['property'] == pid and k['harness'] == cex['harness'] and k['label'] == cex['label']:
+        if k.get('property') == pid and k.get('harness') == cex['harness'] and k.get('label') == cex['label']:
             return k
     return None
 
@@ -447,8 +469,11 @@ def run_check(modname, tier, seed=0):
             print('  harness=%s obligation=%s inputs=%s' % (c['harness'], c['label'], json.dumps(c['values'])[:400]))
         rc = 1
     if errors:
-        for e in errors[:10]:
-            print('HARNESS-ERROR: %s' % json.dumps(e, default=repr)[:1500])
+        for e in errors[:6]:
+            tb = e.pop('tb', None) if isinstance(e, dict) else None
+            print('HARNESS-ERROR: %s' % json.dumps(e, default=repr)[:700])
+            if tb:
+                print('   ...' + str(tb)[-600:].replace('\n', '\n   '))
         if rc == 0:
             rc = 3
     return rc
